@@ -72,6 +72,20 @@ def run_cli(smt2: str, timeout_s: int, which=None):
             pass
 
 
+def _has_quantifier(x):
+    todo, seen = [x], set()
+    while todo:
+        y = todo.pop()
+        if y.get_id() in seen:
+            continue
+        seen.add(y.get_id())
+        if z3.is_quantifier(y):
+            return True
+        if z3.is_app(y):
+            todo.extend(y.children())
+    return False
+
+
 def check(pc, goal, timeout_ms=10000, portfolio=True, want_model=False):
     """Is pc => goal valid?  -> (status, backend, seconds, model|None); status unsat = discharged.
 
@@ -85,6 +99,16 @@ def check(pc, goal, timeout_ms=10000, portfolio=True, want_model=False):
                 return st, be, time.time() - t0, m
             backends.add(be)
         return "unsat", "+".join(sorted(b for b in backends if b)), time.time() - t0, None
+    # 0. without the quantified hypotheses (dropping hypotheses is sound for `unsat`): the engine has already added the
+    #    instances that matter (at the goal's skolem constants), and the quantified originals can make z3 diverge
+    ground = [h for h in pc if not _has_quantifier(h)]
+    if len(ground) != len(pc):
+        s0 = z3.Solver()
+        s0.set("timeout", min(timeout_ms, 2500))
+        s0.add(*ground)
+        s0.add(z3.Not(goal))
+        if s0.check() == z3.unsat:
+            return "unsat", "z3py-%s(qf-subset)" % z3.get_version_string(), time.time() - t0, None
     s = z3.Solver()
     # quick in-process attempt first; hard queries go to the concurrent CLI portfolio with the full budget
     s.set("timeout", min(timeout_ms, 2500) if portfolio else timeout_ms)
